@@ -8,6 +8,7 @@ import (
 	"os"
 	"os/exec"
 	"path/filepath"
+	"regexp"
 	"runtime"
 	"sort"
 	"strconv"
@@ -130,7 +131,15 @@ func runWorker(bin string, job Job, scratch string, stuckAfter, hardLimit time.D
 			testCPU = strings.TrimPrefix(e, "FALCOSIM_TESTCPU=")
 		}
 	}
-	cmd := exec.Command(bin, "-test.run", "^TestWorker$", "-test.cpu", testCPU, "-test.timeout", "0", "-test.count", "1")
+	// The sandbox has no memory limit: cap the address space of a worker so that
+	// an allocation bomb in code under test kills the worker (attributed through
+	// the breadcrumb) instead of the machine. Not possible under -race (TSan
+	// reserves terabytes of address space).
+	wargs := []string{bin, "-test.run", "^TestWorker$", "-test.cpu", testCPU, "-test.timeout", "0", "-test.count", "1"}
+	cmd := exec.Command(wargs[0], wargs[1:]...)
+	if !strings.Contains(bin, ".race.") {
+		cmd = exec.Command("prlimit", append([]string{"--as=" + strconv.FormatInt(int64(envInt("FALCOSIM_MEM_MB", 6144))<<20, 10)}, wargs...)...)
+	}
 	cmd.Env = append(os.Environ(), "FALCOSIM_JOB="+jobPath, "FALCOSIM_REPO="+repoDir)
 	cmd.Env = append(cmd.Env, extraEnv...)
 	cmd.Dir = scratch
@@ -153,7 +162,7 @@ func runWorker(bin string, job Job, scratch string, stuckAfter, hardLimit time.D
 			ob, rerr := os.ReadFile(job.Out)
 			if rerr != nil {
 				c, _ := os.ReadFile(job.Crumb)
-				return nil, strings.TrimSpace(string(c)), fmt.Errorf("worker died without output (%v); case=%s\n%s", err, strings.TrimSpace(string(c)), tail(log.String(), 6000))
+				return nil, strings.TrimSpace(string(c)), fmt.Errorf("worker died without output (%v); case=%s\n%s", err, strings.TrimSpace(string(c)), headTail(log.String(), 3500, 2500))
 			}
 			var out Out
 			if jerr := json.Unmarshal(ob, &out); jerr != nil {
@@ -176,6 +185,13 @@ func runWorker(bin string, job Job, scratch string, stuckAfter, hardLimit time.D
 			}
 		}
 	}
+}
+
+func headTail(s string, h, t int) string {
+	if len(s) <= h+t {
+		return s
+	}
+	return s[:h] + "\n…\n" + s[len(s)-t:]
 }
 
 func tail(s string, n int) string {
@@ -332,7 +348,7 @@ func runSimCheck(id, tier string, seed uint64, p propInfo, scratch string, start
 			detail := fmt.Sprintf("case %d made no progress for %v when run alone (and killed its worker in the batch)", c, 10*stuck)
 			if !strings.Contains(err2.Error(), "stuck") {
 				kind = "fatal"
-				detail = fmt.Sprintf("case %d kills the process with an unrecoverable Go runtime error:\n%s", c, tail(err2.Error(), 3000))
+				detail = fmt.Sprintf("case %d kills the process with an unrecoverable Go runtime error:\n%s", c, headTail(err2.Error(), 3500, 1500))
 			}
 			key := fmt.Sprintf("%s/%s:case", id, kind)
 			if kind == "fatal" {
@@ -481,12 +497,21 @@ func firstLine(s string) string {
 	return s
 }
 
+var falcoFrameRe = regexp.MustCompile(`github\.com/ysugimoto/falco/v2/([^\s(]+(?:\([^)]*\))?[^\s(]*)\(`)
+
+// fatalClass: the fatal line plus the innermost falco function on the dying stack.
 func fatalClass(log string) string {
-	for _, l := range strings.Split(log, "\n") {
+	lines := strings.Split(log, "\n")
+	for i, l := range lines {
 		l = strings.TrimSpace(l)
 		if strings.HasPrefix(l, "fatal error:") || strings.HasPrefix(l, "runtime: goroutine stack exceeds") || strings.HasPrefix(l, "panic:") {
-			if len(l) > 80 {
-				l = l[:80]
+			l = regexp.MustCompile(`\d+`).ReplaceAllString(l, "N")
+			if len(l) > 70 {
+				l = l[:70]
+			}
+			rest := strings.Join(lines[i:], "\n")
+			if m := falcoFrameRe.FindStringSubmatch(rest); m != nil {
+				return l + ":" + m[1]
 			}
 			return l
 		}
@@ -660,5 +685,28 @@ func runDeterminism(id string) int {
 		return 2
 	}
 	fmt.Printf("determinism self-test passed for %s: %d cases × %d processes (GOMAXPROCS 1/4/16) identical event-log hashes, signatures and verdicts\n", id, n, procs)
+	return 0
+}
+
+func runOneCase(id string, n int, tier string) int {
+	p, ok := props[id]
+	if !ok || p.Engine == "fsfault" {
+		return 2
+	}
+	scratch, cleanup := scratchDir()
+	defer cleanup()
+	bi, err := buildWorker(scratch, p.Engine, p.Overlay, false)
+	if err != nil {
+		fmt.Fprintln(os.Stderr, err)
+		return 2
+	}
+	start := time.Now()
+	job := Job{Mode: "range", Property: id, Tier: tier, Seed: seedFromEnv(), Worker: n, Workers: 1 << 30}
+	o, crumb, err := runWorker(bi.Bin, job, scratch, 10*time.Minute, 10*time.Minute, nil)
+	fmt.Printf("case %d: %.2fs wall, crumb=%q err=%v\n", n, time.Since(start).Seconds(), crumb, err)
+	if o != nil {
+		b, _ := json.MarshalIndent(map[string]any{"found": o.Found, "probes": o.Probes, "faults": o.Faults, "error": o.Error, "samples": o.Samples}, "", " ")
+		fmt.Println(string(b))
+	}
 	return 0
 }
